@@ -43,10 +43,18 @@ def main():
     mod = importlib.import_module(modname)
     ctx = core.Ctx(prop, tier, seed)
 
+    def do_replay(case):
+        if case.get("mode") == "unit-crash":
+            import pickle
+
+            r = core._call((case["module"], pickle.loads(bytes.fromhex(case["unit_pickle"]))))
+            return [x for x in r.get("violations", []) if x["key"].get("kind") == "implementation-raised"]
+        return mod.replay_case(case)
+
     if a.replay:
         with open(a.replay) as f:
             v = json.load(f)
-        out = mod.replay_case(v["case"])
+        out = do_replay(v["case"])
         print(json.dumps(core.jsonable({"replayed": a.replay, "violations": out}), indent=1))
         known = core.load_known()
         bad = [x for x in out if core.match_known(x, known) is None]
@@ -102,8 +110,8 @@ def main():
         if reported >= 8:
             break
         seen_keys.add(kk)
-        r1 = mod.replay_case(v["case"])
-        r2 = mod.replay_case(v["case"])
+        r1 = do_replay(v["case"])
+        r2 = do_replay(v["case"])
         f1 = json.dumps(core.jsonable([(x["key"], x["observed"]) for x in r1]), sort_keys=True)
         f2 = json.dumps(core.jsonable([(x["key"], x["observed"]) for x in r2]), sort_keys=True)
         if f1 != f2 or not [x for x in r1 if x["property"] == prop]:
